@@ -191,6 +191,11 @@ Fixpoint round_ok (orig got : list blk) (e : oend) : bool :=
 
 Definition all_some_nonempty (encs : list (option str)) : bool :=
   forallb (fun e => match e with Some (_ :: _) => true | _ => false end) encs.
+(* every block marshals: with that and every Write call returning nil the sequence IS "written with the
+   block writer" (a writer that accepts a block it cannot give back breaks the round trip: finding
+   C16-writer-empty-encoding) *)
+Definition all_some (encs : list (option str)) : bool :=
+  forallb (fun e => match e with Some _ => true | None => false end) encs.
 
 (* resolve "identical to the input at this position" *)
 Fixpoint resolve {A} (dflt : list A) (got : list (option A)) : list A :=
@@ -218,7 +223,7 @@ Definition round_verdict bs encs (flen fsum : N) wok wpanic o_ct o_blks_c o_end 
   let m := wr && rd in
   (* the property's quantifier: the sequence was written (non-empty, first block has a type
      URL, every block marshals to a non-empty message) *)
-  let inq := wok && negb (match bs with [] => true | _ => false end) && all_some_nonempty encs in
+  let inq := wok && negb (match bs with [] => true | _ => false end) && all_some encs in
   let p := negb inq || round_ok bs o_blks o_end in
   (if m then 0 else 1) + (if p then 0 else 2).
 
@@ -242,7 +247,7 @@ Definition retry_verdict bs encs (flen fsum : N) (oks : list bool) wpanic o_ct o
   let rd := ostr_eqb (option_map h_ctype mh) o_ct && list_eqb blk_eqb mbl o_blks && oend_matches o_end mo &&
             resolved_ok accepted o_blks_c in
   let m := wr && rd in
-  let inq := negb (match accepted with [] => true | _ => false end) && all_some_nonempty (keep encs oks) in
+  let inq := negb (match accepted with [] => true | _ => false end) && all_some (keep encs oks) in
   let p := negb inq || round_ok accepted o_blks o_end in
   (if m then 0 else 1) + (if p then 0 else 2).
 
